@@ -18,7 +18,7 @@ func init() {
 		Explanation: "Decides the control structure of the net/http middleware, not byte-for-byte pass-through: R1 the wrapped handler is only invoked when request processing returned neither an interruption nor an error (or the engine is Off); " +
 			"R2 ProcessLogging and Close are deferred in the entry block of the handler, unconditionally; R3 every write of body bytes to the downstream ResponseWriter is dominated by 'not interrupted' facts established after the last phase call, the buffered body is copied downstream only from call sites dominated by 'no interruption', and buffering stops once the buffered body has been released (same three-part guard in Write and in the response processor), and every interruption branch that flushes the response status first declares an empty body (Content-Length: 0); " +
 			"R4 no entry point of the interceptor (exported methods, response processor) flushes a status to the delegate unless WriteHeader - the only writer of wroteHeader, and the caller of ProcessResponseHeaders - ran on that path; Flush is forwarded only under allowFlushing and after the header was flushed, and allowFlushing is raised only when the body is not buffered or after it was processed; R5 after a successful ReadRequestBodyFrom every successful exit of processRequest has re-spliced the buffered bytes in front of the unread remainder of the client's body; " +
-			"R6 the built-in default status replaces the interruption's only when it carries none (Status == 0); every Action string a disruptive action can put into an Interruption is mapped by the status function.",
+			"R6 the built-in default status replaces the interruption's only when it carries none (Status == 0); every Action string a disruptive action can put into an Interruption is mapped by the status function. R2 also: in the connector ProcessLogging and Close are called from the deferred clean-up of the request closure and nowhere else. R5 also: a Content-Type response header sets RESPONSE_CONTENT_TYPE on every path of its branch.",
 		NotDecided: []string{
 			"byte-for-byte equality of what handler and client see, for all sizes and chunkings",
 			"behaviour of the embedding server (hijacking, HTTP/2 push, trailers)",
